@@ -44,7 +44,7 @@ inductive Outcome (α : Type) where
   | ok (a : α)
   | crash (c : Crash)
   | outOfFuel
-  deriving Repr
+  deriving Repr, DecidableEq
 
 instance : Monad Outcome where
   pure := .ok
